@@ -11,12 +11,14 @@ HANG = ['deadlock', 'cancel_hangs']
 C14K = ['node_start_twice_without_complete', 'node_complete_without_start', 'body_without_node_start', 'missing_node_complete',
         'complete_reports_error_for_value', 'complete_reports_success_for_failure', 'complete_reports_other_exception']
 F = [
- dict(id='KF-REC2', family='rec_two_scopes', properties=['C01', 'C02', 'C05', 'C07', 'C08', 'C09', 'C10', 'C11', 'C13'], kinds=HANG,
+ dict(id='KF-REC2', family='rec_two_scopes', properties=['C01', 'C02', 'C04', 'C05', 'C07', 'C08', 'C09', 'C10', 'C11', 'C13', 'C14'],
+      kinds=HANG + ['over_execution', 'delivered_before_complete'],
       mechanism='a recurrent subgraph that is inside two sub-pipeline scopes which are both active in the run, one of them a one-of candidate '
                 '(e.g. consumed directly and through a candidate): whether a failure inside a re-iteration is contained (stored as a result) '
                 'or raised is decided by the scope that happens to drive the subgraph; when the candidate drives it, the failure is stored, '
-                'the subgraph is abandoned and the other scope waits for the destination forever (hang). The None propagation that used to '
-                'be listed here was repaired (D37).',
+                'the subgraph is abandoned and the other scope waits for the destination forever (hang). The re-iteration hides the '
+                '"processed" marks of the subgraph, so a scope that asks for the destination at that moment executes it once more '
+                '(over-execution within one iteration). The None propagation that used to be listed here was repaired (D37).',
       witness={'C09': 'witnesses/KF-REC2.json', 'C02': 'witnesses/KF-REC2.json'}),
  dict(id='KF-RECINNER', family='rec_inner_sw', properties=RUNP + ['C19'],
       kinds=['never_node_ran', 'unexpected_args', 'over_execution', 'deadlock', 'cancel_hangs', 'unexpected_default_call',
@@ -39,12 +41,18 @@ F = [
                 '(manager.py _is_ready_to_execute / hide_last_execution), and it is not re-executed; C03 asks for the final-iteration value. Everything '
                 'computed from the stale value (labels of later switches, failures that depend on it) differs from the reference accordingly',
       witness={'C12': 'witnesses/KF-RECOUT.json'}),
- dict(id='KF-STORE-REC', family='rec_iterates', properties=['C19'],
+ dict(id='KF-POOLWINDOW', family='bounded_pool', properties=RUNP + ['C19'], kinds=['queued_pool_job_started_in_cancel_window'],
+      mechanism='run() ends by asking its helper tasks to cancel (manager.py run(), finally: _stop_coro_tasks) and does not wait for them: the '
+                'cancellation reaches the future of loop.run_in_executor one loop iteration later, so a job that is still waiting in the queue of a '
+                'thread / process pool with fewer workers than ready nodes can be picked up by a worker, and the node body starts, in that one '
+                'iteration after run() has returned or raised. A pick-up later than that is reported as a violation (started_after_end)',
+      witness={'C13': 'witnesses/KF-POOLWINDOW.json'}),
+ dict(id='KF-STORE-REC', family='rec_iterates', properties=['C19', 'C08'],
       kinds=['recurrent_marker_saved', 'saved_more_than_once', 'write_once_store_failed_run', 'exception_saved', 'saved_value_not_final'],
       mechanism='_run_node saves every intermediate result (manager.py 645-649, see the TODO): the Recurrent marker of the destination and '
                 'the value of every re-executed node are saved once per iteration, so a write-once store fails a correct recurrent pipeline',
       witness={'C19': 'witnesses/KF-STORE-REC.json'}),
- dict(id='KF-STORE-CAND', family='cand_fail', properties=['C19'],
+ dict(id='KF-STORE-CAND', family='cand_fail', properties=['C19', 'C08'],
       kinds=['exception_saved', 'saved_more_than_once', 'write_once_store_failed_run', 'recurrent_marker_saved', 'saved_value_not_final'],
       mechanism='the contained exception of a losing one-of candidate is saved as that node\'s artifact (manager.py 333-340 + 645-649)',
       witness={'C19': 'witnesses/KF-STORE-CAND.json'}),
